@@ -451,6 +451,11 @@ func routeName(tree ref.Val, pos, a int) string {
 
 // RunRoutes runs CheckRoutes over the families for the given engines.
 func RunRoutes(r *core.Run, engines []typed.Engine, fams []*rs.Schema, every int) {
+	RunRoutesOn(r, engines, fams, every, func(s *rs.Schema) []string { return s.Roots })
+}
+
+// RunRoutesOn is RunRoutes over the types roots(s) names, used as builder roots.
+func RunRoutesOn(r *core.Run, engines []typed.Engine, fams []*rs.Schema, every int, roots func(*rs.Schema) []string) {
 	type job struct {
 		eng typed.Engine
 		s   *rs.Schema
@@ -462,7 +467,7 @@ func RunRoutes(r *core.Run, engines []typed.Engine, fams []*rs.Schema, every int
 			if eng.Proto(s, "Int", false) == nil {
 				continue
 			}
-			for _, tn := range s.Roots {
+			for _, tn := range roots(s) {
 				jobs = append(jobs, job{eng, s, tn})
 			}
 		}
